@@ -550,6 +550,16 @@ class Interp(object):
                 elif mod == 'functools' and a.name in ('lru_cache', 'cache', 'wraps', 'cached_property'):
                     env[local] = Native('functools.' + a.name, {'lru_cache': _nat_lru_cache, 'cache': _nat_lru_cache,
                                                                 'wraps': _nat_wraps, 'cached_property': _nat_cached_property}[a.name])
+                elif mod == 'operator' and a.name in ('attrgetter', 'itemgetter'):
+                    if a.name == 'attrgetter':
+                        env[local] = Native('operator.attrgetter', lambda it, a_, k_: (
+                            lambda names: Native('attrgetter(%s)' % ', '.join(names), lambda it2, b_, k2: (
+                                it2.getattr(b_[0], names[0]) if len(names) == 1 else tuple(it2.getattr(b_[0], n_) for n_ in names))))(
+                                    [str(x) for x in a_]))
+                    else:
+                        env[local] = Native('operator.itemgetter', lambda it, a_, k_: (
+                            lambda keys: Native('itemgetter', lambda it2, b_, k2: (
+                                b_[0][keys[0]] if len(keys) == 1 else tuple(b_[0][k3] for k3 in keys))))(list(a_)))
                 elif mod == 'weakref' and a.name in ('WeakKeyDictionary', 'WeakValueDictionary'):
                     # objects of the interpreted program are never collected during a model run: a weak mapping is a mapping
                     env[local] = Native(a.name, lambda it, a_, k_: dict(*a_, **k_))
